@@ -981,6 +981,10 @@ SEED_CORPUS = [
     ('31', ['n1', '?', '(', '1', ')', '?', 'n2']), ('31', ['-', 'n1', '?', 'n2']), ('31', ['n1', '!', 'n2', '/', 'n3']),
     ('31', ['n1', 'or', 'n2', 'and', 'n3', '=', 'n4', '||', 'n5', 'to', 'n6', '+', 'n7', '*', 'n1', '|', 'n2', 'intersect', 'n3',
             'instance', 'T4']),
+    # minimal failing inputs found by the mutation self-test (regression seeds)
+    ('20', ['n1', 'to', 'n2', 'to', 'n3']), ('31', ['n1', '|', 'n2', '|', 'n3']), ('30', ['n1', 'intersect', 'n2', 'cast', 'T3']),
+    ('20', ['-', 'n1', 'cast', 'T0']), ('30', ['n1', '||', 'n2', 'to', 'n3']), ('10', ['$1', '*', 'n5', '*', 'n6']),
+    ('31', ['-', 'n1', '|', 'n2']), ('31', ['n1', 'union', 'n2', 'intersect', 'n3', 'except', 'n4']),
 ]
 
 
